@@ -19,6 +19,10 @@ type GoCase struct {
 	Val   gomodel.GoVal    `json:"val"`
 	Route string           `json:"route,omitempty"` // direct | json | ubjson | cborl
 	Note  string           `json:"note,omitempty"`
+	// PreFail > 0 (C12): the value is folded TWICE by one iterator; during the
+	// first fold the visitor fails at event PreFail-1 (whatever that fold
+	// returns is C16's business), the second fold is the one that is judged
+	PreFail int `json:"prefail,omitempty"`
 }
 
 func (c *GoCase) build() (reflect.Type, reflect.Value, error) {
@@ -64,6 +68,28 @@ func foldTo(rv reflect.Value, vis structform.Visitor) Outcome {
 		if err != nil {
 			return err
 		}
+		return it.Fold(rv.Interface())
+	})
+}
+
+// foldAfterFailure folds rv twice with ONE iterator: the first time the visitor
+// fails at event k, the second time it records. A failed document must not
+// change what the iterator emits for the next one.
+func foldAfterFailure(rv reflect.Value, rec *model.Recorder, k int) Outcome {
+	otherInstances(rv.Type())
+	return guard(func() error {
+		it, err := gotype.NewIterator(rec, foldOpts()...)
+		if err != nil {
+			return err
+		}
+		rec.Hook = func(idx int, _ model.Ev) error {
+			if idx >= k {
+				return errVisitor
+			}
+			return nil
+		}
+		_ = it.Fold(rv.Interface())
+		rec.Hook, rec.Evs, rec.N = nil, nil, 0
 		return it.Fold(rv.Interface())
 	})
 }
